@@ -116,6 +116,8 @@ Theorem construct_accept_top_rules t req ps :
     (key_in (pkey p) req = true \/ p_default (snd (fst p)) <> None).
 Proof.
   unfold construct. intros Hc Hs p Hin. rewrite Hs in Hc.
+  destruct (has_prop_named k_properties (SObj (Some req) ps)); [discriminate|].
+  destruct (key_in k_type (map pkey ps) && negb (key_in k_binaryFormat (map pkey ps))); [discriminate|].
   destruct (negb c12_pascal_zero_allowed && has_pas0 (SObj (Some req) ps)); [discriminate|].
   destruct (top_rules (Some req) ps) eqn:E; [discriminate|]. clear Hc.
   unfold top_rules in E.
@@ -144,17 +146,17 @@ Proof.
   - exists {| t_nullable := false; t_schema :=
               SObj None [([111], {| p_index := 0; p_default := None |},
                           SObj (Some []) [([97], {| p_index := 0; p_default := None |},
-                                           SLeaf TInteger (Some (BInt Ii)) false)])] |},
+                                           SLeaf TInteger (Some (BInt Ii)) 0%nat)])] |},
            (VObj [([111], VObj [])]).
     repeat split; reflexivity.
   - exists {| t_nullable := false; t_schema :=
               SObj None [([111], {| p_index := 0; p_default := None |},
-                          SObj None [([97], {| p_index := 0; p_default := None |}, SLeaf TInteger None false)])] |}.
+                          SObj None [([97], {| p_index := 0; p_default := None |}, SLeaf TInteger None 0%nat)])] |}.
     reflexivity.
   - eexists {| t_nullable := false; t_schema :=
               SObj None [([111], {| p_index := 0; p_default := None |},
                           SObj None [([97], {| p_index := 0; p_default := None |},
-                                      SArr (AFixed (-2)) (SLeaf TInteger (Some (BInt Ii)) false))])] |}.
+                                      SArr (AFixed (-2)) (SLeaf TInteger (Some (BInt Ii)) 0%nat))])] |}.
     split; [reflexivity|]. do 2 eexists. repeat split; reflexivity.
 Qed.
 
@@ -168,8 +170,8 @@ Definition subst_schema : top :=
   {| t_nullable := false; t_schema :=
      SObj None [([111], {| p_index := 0; p_default := Some (VObj [([97], VInt 5); ([98], VInt 6)]) |},
                  SObj (Some [[98]])
-                   [([97], {| p_index := 0; p_default := None |}, SLeaf TInteger (Some (BInt Ii)) false);
-                    ([98], {| p_index := 0; p_default := None |}, SLeaf TInteger (Some (BInt Ii)) false)])] |}.
+                   [([97], {| p_index := 0; p_default := None |}, SLeaf TInteger (Some (BInt Ii)) 0%nat);
+                    ([98], {| p_index := 0; p_default := None |}, SLeaf TInteger (Some (BInt Ii)) 0%nat)])] |}.
 
 Theorem nested_keyerror_substitutes_default_pinned_refuted :
   c12_encode_swallows_nested_keyerror = true ->      (* as long as metadata.py has the try/except *)
@@ -186,3 +188,47 @@ Theorem nested_keyerror_propagates :
   c12_encode_swallows_nested_keyerror = false ->
   validate_and_encode round32_impl (modify_top subst_schema) (VObj [([111], VObj [([98], VInt 1)])]) = EErr EKey.
 Proof. intros H. vm_compute in H. first [discriminate H | vm_compute; auto]. Qed.
+
+(* F9e on the current model: two property names change what MetadataSchema() does with an
+   otherwise identical, perfectly good schema *)
+Theorem reserved_property_names_refuted :
+  let mk name := {| t_nullable := false; t_schema :=
+        SObj None [(name, {| p_index := 0; p_default := None |}, SLeaf TInteger (Some (BInt Ii)) 0%nat)] |} in
+  construct (mk [97]) = CAccept /\
+  construct (mk k_properties) = CAttrErr /\                  (* AttributeError from order_by_index *)
+  construct (mk k_type) = CSchemaErr /\                      (* "integer type must have binaryFormat set" *)
+  (* ... at any depth for "properties", only at the top level for "type" *)
+  construct {| t_nullable := false; t_schema :=
+      SObj None [([111], {| p_index := 0; p_default := None |}, t_schema (mk k_properties))] |} = CAttrErr /\
+  construct {| t_nullable := false; t_schema :=
+      SObj None [([111], {| p_index := 0; p_default := None |}, t_schema (mk k_type))] |} = CAccept.
+Proof. vm_compute. auto. Qed.
+
+(* the exact boundary: nothing else about names matters to the constructor's first two checks *)
+Theorem reserved_names_boundary t req ps :
+  t_schema t = SObj req ps ->
+  has_prop_named k_properties (t_schema t) = false ->
+  (key_in k_type (map pkey ps) = false \/ key_in k_binaryFormat (map pkey ps) = true) ->
+  construct t <> CAttrErr.
+Proof.
+  intros Hs Hp Ht. unfold construct. rewrite Hs in *. rewrite Hp.
+  assert (key_in k_type (map pkey ps) && negb (key_in k_binaryFormat (map pkey ps)) = false) as ->
+    by (destruct Ht as [-> | ->]; [reflexivity | apply andb_false_r]).
+  destruct (negb c12_pascal_zero_allowed && has_pas0 (SObj req ps)); [discriminate|].
+  destruct (top_rules req ps); [discriminate|].
+  destruct (mk_encode (modify (SObj req ps))) eqn:E1; cbn [cthen]; try discriminate.
+  - destruct (mk_decode (modify (SObj req ps))) eqn:E2; try discriminate.
+    exfalso. clear -E2. revert E2. generalize (modify (SObj req ps)).
+    intros s. induction s as [t0 f nt | m it IH | rq qs IH] using schema_ind'; cbn [mk_decode].
+    + destruct t0; destruct f; discriminate.
+    + destruct (has_exhaust it); [discriminate|]. destruct (mk_decode it) eqn:E; cbn [cthen]; try discriminate; auto.
+      destruct m; try discriminate. destruct (can_decode_empty it); discriminate.
+    + destruct (exhaust_before_last qs); [discriminate|].
+      induction IH as [|p r Hp' _ IHr]; cbn [fold_right]; [discriminate|].
+      destruct (mk_decode (snd p)) eqn:E; cbn [cthen]; try discriminate; auto.
+  - exfalso. clear -E1. revert E1. generalize (modify (SObj req ps)).
+    intros s. induction s as [t0 f nt | m it IH | rq qs IH] using schema_ind'; cbn [mk_encode]; auto.
+    + destruct t0; destruct f; discriminate.
+    + induction IH as [|p r Hp' _ IHr]; cbn [fold_right]; [discriminate|].
+      destruct (mk_encode (snd p)) eqn:E; cbn [cthen]; try discriminate; auto.
+Qed.
